@@ -265,6 +265,55 @@ def TOp.err (o : TOp R) (t : PT R) : Option Err :=
     | none => none
   | _ => none
 
+/-! ### the caller's side: the lists handed out by `stored()`
+
+`stored()` without an index returns `_y[:]` (penalty.py l.72, 131, 190, 249, 310, 372, 431, 499, 571): a NEW python
+list.  What the caller then does to that list (sort, scale, append, `del`) is the caller's business; what the penalty
+later does to `_y` (`store`, `clear`: `_y.extend`, `_y[i] = y`, `_y.pop()`) is the penalty's.  A session is the tree
+together with the lists the caller holds. -/
+
+structure Sess (R : Type) where
+  t : PT R
+  held : List (List R)
+
+/-- one step of a session -/
+inductive SOp (R : Type) where
+  /-- a mutating call (`iter / iter(i) / clear / store`) on an object of the tree -/
+  | tree (o : TOp R)
+  /-- `r = obj.stored()`, kept by the caller as its list number `held.length` -/
+  | hold (p : List Step)
+  /-- the caller edits ITS list number `s` in place; `new` = the contents after the edit (any edit at all) -/
+  | hmut (s : Nat) (new : List R)
+
+def SOp.apply (o : SOp R) (s : Sess R) : Sess R :=
+  match o with
+  | .tree o => { s with t := o.apply s.t }
+  | .hold p => { s with held := s.held ++ [match getT p s.t with | some sub => storedT sub | none => []] }
+  | .hmut i new => { s with held := s.held.set i new }
+
+def runS (os : List (SOp R)) (s : Sess R) : Sess R := os.foldl (fun s o => o.apply s) s
+
+/-- the mutating calls of a session, in order -/
+def treeOps : List (SOp R) → List (TOp R)
+  | [] => []
+  | .tree o :: os => o :: treeOps os
+  | _ :: os => treeOps os
+
+mutual
+/-- every level of a type WITHOUT multipliers (all but the two Lagrange types) has an empty `_y` -/
+def cleanT : PT R → Bool
+  | .base _ => true
+  | .pen l c inner => (l.t.isLag || l.y.isEmpty) && cleanC c && cleanT inner
+def cleanC : PC R → Bool
+  | .leaf _ => true
+  | .not _ c => cleanC c
+  | .and ms => cleanL ms
+  | .or m ms => cleanT m && cleanL ms
+def cleanL : PL R → Bool
+  | .nil => true
+  | .cons m rest => cleanT m && cleanL rest
+end
+
 /-- `constraints.as_penalty` (constraints.py l.485): the condition is `rnorm(x, constraint(x))`; a constraint that
 divides by zero makes the condition raise -/
 def asPenaltyCond (x : List R) (cx : Option (List R)) : Option R :=
